@@ -407,6 +407,8 @@ def label_variants(states, r, k):
     yield odd
     yield {s: ['not p', '(p or q)', 7, ('t',)][: (i + k) % 4 + 1]
            for i, s in enumerate(states)}
+    # a string is an iterable of (one-character) atoms
+    yield {s: 'pq'[: (i + k) % 3] for i, s in enumerate(states)}
 
 
 def name_fn(k):
